@@ -33,7 +33,7 @@ def main():
         p.write_text(s.replace(old, new))
         import py_compile
         py_compile.compile(str(p), doraise=True)
-        env = dict(os.environ, GECKO_REPO=str(d))
+        env = dict(os.environ, GECKO_REPO=str(d), VERIF_SCRATCH_DIR=str(d / "_verif_out"))
         r = subprocess.run(["/verif/check", pid], env=env, capture_output=True, text=True)
         out = [l for l in r.stdout.splitlines() if not l.startswith("    analysed")]
         print("\n".join(out[-12:])); print("rc=", r.returncode)
